@@ -67,6 +67,12 @@ def _all_cells():
                         for use in uses:
                             for defkind in ("arith", "rtindex"):
                                 cells.append([flavor, sk, mask, predef, nest, use, defkind])
+                        if flavor != "comb" and nest != "outer_if_else" and \
+                                ((bin(mask).count("1") == 1 and predef == 0) or (mask == 0 and predef == 1)):
+                            # a Signal constructed inside the body: defined in exactly one arm (every use after it / in a
+                            # sibling must be rejected) or before the construct (legal control)
+                            for use in [u for u in uses if u in ("after", "in_sibling")]:
+                                cells.append([flavor, sk, mask, predef, nest, use, "localsig"])
                         if mask == 0 and predef == 1:
                             # explicit Temporary(..., maybe_uninitialized=True): exempt from the branch analysis, but still
                             # not allowed to live across states
@@ -115,7 +121,7 @@ def build_cell(cell):
     outputs = [{"name": "ov0", "kind": "u", "default": 1}, {"name": "ov1", "kind": "u", "default": 2},
                {"name": "ob0", "kind": "bit", "default": 0}]
     n = N_ARMS[sk]
-    if defkind in ("arith", "mu"):
+    if defkind in ("arith", "mu", "localsig"):
         exprs = [["add", ["in", "iv0"], ["const", k + 1]] for k in range(3)] + [["xor", ["in", "iv0"], ["in", "iv1"]]]
         pre_expr = ["inv", ["in", "iv1"]]
         use_stmt = {"k": "assign", "t": {"name": "ov0"}, "e": ["loc", "t"]}
@@ -126,10 +132,18 @@ def build_cell(cell):
         pre_expr = ["ridx", ["inv", ["in", "iv1"]], ["in", "ix"]]
         use_stmt = {"k": "assign", "t": {"name": "ob0"}, "e": ["loc", "t", 1]}
 
+    def defstmt(e):
+        if defkind == "localsig":
+            return {"k": "localsig", "name": "lst", "kind": "u", "e": e}
+        return {"k": "bind", "bind": "t", "e": e}
+
+    if defkind == "localsig":
+        use_stmt = {"k": "assign", "t": {"name": "ov0"}, "e": ["sig", "lst"]}
+
     def arm(k):
         body = [{"k": "assign", "t": {"name": "ov1"}, "e": ["add", ["in", "iv1"], ["const", k]]}]
         if mask >> k & 1:
-            body.append({"k": "bind", "bind": "t", "e": exprs[k]})
+            body.append(defstmt(exprs[k]))
         if use == "await_in_arm" and k == 0:
             body.append({"k": "await", "c": ["in", "ib2"]})
         if use == "in_sibling" and k == n - 1 and n > 1:
@@ -162,7 +176,7 @@ def build_cell(cell):
     if flavor == "coro":
         body.append({"k": "assign", "t": {"name": "ov1"}, "e": ["in", "iv1"]})
     if predef:
-        body.append({"k": "bind", "bind": "t", "e": pre_expr, "mu": defkind == "mu"})
+        body.append(defstmt(pre_expr) if defkind == "localsig" else {"k": "bind", "bind": "t", "e": pre_expr, "mu": defkind == "mu"})
     body += inner
     crosses_await = False
     if use == "after_await":
